@@ -38,3 +38,14 @@ partial def loop (h : IO.FS.Stream) (out : IO.FS.Stream) (d : Drv) (s : d.σ) : 
   loop h out d s'
 
 end Ldk.Driver
+
+namespace Ldk.Driver
+/-- entry point shared by the per-property driver executables: `drv_cNN <model> < ops` -/
+def runMain (models : List (String × Drv)) (args : List String) : IO UInt32 := do
+  match args with
+  | [m] =>
+    match models.lookup m with
+    | some d => loop (← IO.getStdin) (← IO.getStdout) d d.init; return 0
+    | none => IO.eprintln s!"unknown model {m}"; return 2
+  | _ => IO.eprintln "usage: drv <model> < ops"; return 2
+end Ldk.Driver
